@@ -73,6 +73,7 @@ def run_ops(iterable, ops, kinds):
     ("stop",) | ("closed",) | ("bad",)"""
     its, leaked, out = [], [], []
     kinds = list(kinds)
+    held = []                                  # (position in out, the object that was yielded): a consumer may keep it
     for c, a in ops:
         if c == ITER:
             its.append(iter(iterable))
@@ -89,6 +90,7 @@ def run_ops(iterable, ops, kinds):
                 out.append(("stop",))
                 continue
             out.append(("batch", [int(i) for i in (bt.tolist() if hasattr(bt, "tolist") else bt)]))
+            held.append((len(out) - 1, bt))
         elif c == ABANDON:
             if a >= len(its) or its[a] is None:
                 out.append(("bad",))
@@ -109,6 +111,11 @@ def run_ops(iterable, ops, kinds):
             out.append(("closed",))
         else:
             raise ValueError(f"unknown op {c}")
+    # a batch handed out earlier must not change when the iterator (or another one) is advanced later
+    for pos, bt in held:
+        now = [int(i) for i in (bt.tolist() if hasattr(bt, "tolist") else bt)]
+        if now != out[pos][1]:
+            out[pos] = ("batch", out[pos][1], now)
     return out
 
 
@@ -214,6 +221,10 @@ def check_history(layout, world, rank, limit, bs, mode, ops, kinds):
     n_it = 0
     lens = set()
     for (c, a), r in zip(ops, res):
+        if r[0] == "batch" and len(r) == 3:
+            yield ("bvs-history-batch-mutated-after-yield",
+                   f"batch {r[1]} handed out by iterator {a} reads {r[2]} after later operations (aliased buffer)",
+                   {"results": [list(x) for x in res]})
         if c == ITER:
             handle_of[n_it] = True
             n_it += 1
